@@ -10,6 +10,7 @@ C12: whatever prophyc accepts, every back-end can realise; rule breakers are rej
 """
 import copy
 import os
+import re
 import shutil
 import subprocess
 import tempfile
@@ -173,10 +174,40 @@ def classify_isar(case, detail):
 RESERVED = ['class', 'delete', 'new', 'template', 'namespace', 'E', 'None', 'def', 'import', 'lambda']
 
 
+CPP_KEYWORDS = set('''alignas alignof and and_eq asm auto bitand bitor bool break case catch char char16_t char32_t class compl const constexpr const_cast
+continue decltype default delete do double dynamic_cast else enum explicit export extern false float for friend goto if inline int long mutable namespace new
+noexcept not not_eq nullptr operator or or_eq private protected public register reinterpret_cast return short signed sizeof static static_assert static_cast
+struct switch template this thread_local throw true try typedef typeid typename union unsigned using virtual void volatile wchar_t while xor xor_eq
+final override'''.split())
+
+
+def header_identifiers():
+    """every identifier the shipped C++ headers use (comments and strings dropped; no keywords, no macros): the names a schema name can
+    collide with when the generated sources use them unqualified"""
+    import glob
+    import keyword
+    names = set()
+    for path in glob.glob(os.path.join(REPO, 'prophy_cpp', 'include', 'prophy', '**', '*.hpp'), recursive=True):
+        text = re.sub(r'//[^\n]*|/\*.*?\*/|"[^"\n]*"', ' ', open(path).read(), flags=re.S)
+        names |= set(re.findall(r'(?<![0-9A-Za-z_])[A-Za-z_]\w*', text))
+    return sorted(n for n in names if n not in CPP_KEYWORDS and not keyword.iskeyword(n) and not n.isupper() and not n.startswith('__') and len(n) > 1)
+
+
+def declared_by_the_c_library(name, d):
+    """D40 (widened in round 8): is `name` a declaration of the C library at global scope (memcpy, ptrdiff_t, uintptr_t)?"""
+    os.makedirs(d, exist_ok=True)
+    src = os.path.join(d, 'probe.cpp')
+    with open(src, 'w') as f:
+        f.write('#include <cstring>\n#include <cstddef>\n#include <stdint.h>\n#include <cstdlib>\n#include <ctime>\nnamespace probe { using ::%s; }\n' % name)
+    return subprocess.run(['g++', '-std=c++11', '-fsyntax-only', src], stdout=subprocess.PIPE, stderr=subprocess.STDOUT, timeout=120).returncode == 0
+
+
 def classify_c12(case, detail):
     """D40: identifiers that are reserved in a target language (or `E`, the template parameter of the generated C++);
     D59: isar text naming an enumerator of an xi:include'd file (the Python output does not import it)"""
     if case.get('rule') == 'identifier reserved in a target language':
+        return 'D40'
+    if case.get('rule') == 'identifier of the C++ runtime headers' and case.get('c_library'):
         return 'D40'
     if case.get('rule') in ('schema without definitions', 'array extent no C++ object can have') and 'python' not in detail.get('backends', {}):
         return 'D118'
@@ -689,6 +720,27 @@ def run_c12(tier):
                 bad = {k: v for k, v in backends(d).items() if v}
                 if bad:
                     chk.property_violation(rcase, {'what': 'prophyc succeeded but a generated artifact is unusable', 'backends': {k: v[:150] for k, v in bad.items()}}, classify_c12)
+        # every identifier of the shipped headers as a type name and as an enumerator: refused, or every back-end is usable (the lists
+        # CPP_*_RUNTIME_NAMES were found incomplete three times by auditors; names the C library declares globally are D40)
+        idents = header_identifiers()
+        picked = idents if tier == 'thorough' else sorted(chk.rng.sample(idents, min(5, len(idents))) + ['memcpy'])
+        chk.bump('header identifiers known', len(idents))
+        for name in picked:
+            for role, text in (('type', 'struct %s { u8 a; };\nstruct X_ { %s k; u8 f<>; };\nstruct Y_ { %s* o; u32 g[2]; };\n' % (name, name, name)),
+                               ('enumerator', 'enum E_ { %s = 1, E_other = 2 };\nstruct Y_ { E_ e; u8 f<>; };\nunion U_ { %s: u8 a; E_other: u16 b; };\n' % (name, name))):
+                d = os.path.join(root, 'hid_%s_%s' % (name, role))
+                outcome, msg = compile_all(text, d)
+                chk.count(('header-identifier', name, role), True)
+                chk.bump('header-identifier:' + ('accepted' if outcome == 'ok' else 'refused'))
+                if outcome == 'ok':
+                    bad = {k: v for k, v in backends(d).items() if v}
+                    if bad:
+                        hcase = {'schema': text, 'rule': 'identifier of the C++ runtime headers', 'name': name, 'c_library': declared_by_the_c_library(name, d)}
+                        chk.property_violation(hcase, {'what': 'prophyc succeeded but a generated artifact is unusable', 'backends': {k: v[:150] for k, v in bad.items()}},
+                                               classify_c12)
+                elif outcome != 'ProphycError':
+                    chk.property_violation({'schema': text, 'rule': 'identifier of the C++ runtime headers'}, {'what': 'ended in %s instead of a diagnostic' % outcome, 'message': msg})
+                shutil.rmtree(d, ignore_errors=True)
         # directed multi-file and isar schemas (defects D56..: built-in names, redefinition through includes, isar ranges)
         for k, (rule, opt, files, main, expected) in enumerate(DIRECTED):
             outcome, msg, bad = directed_case(root, k, opt, dict(files, **({'__python_only__': '1'} if rule.startswith('python only:') else {})), main)
